@@ -46,6 +46,22 @@ def oracle(u: Universe, tc: TypeCase, aval: Dict[str, Any], route: str, tally: T
         return []
     try:
         m = av.make_bp(u.bp, u.schema, tc.msg, aval, "ctor")
+        if route == "bp->ref:foreign-enum":
+            # the field holds a member of ANOTHER enum class with the same number (a v1 enum value
+            # put into a v2 message): what is emitted is the name the FIELD's enum gives that number
+            for f in tc.msg.fields:
+                if f.base != "enum" or f.name not in aval:
+                    continue
+                other = u.bp.Shade if f.kind == "enum:Color" else u.bp.Color
+                conv = lambda n: other.try_value(int(n))
+                v = aval[f.name]
+                if f.card == "repeated":
+                    setattr(m, f.name, [conv(x) for x in v])
+                elif f.card == "map":
+                    setattr(m, f.name, {k: conv(x) for k, x in v.items()})
+                else:
+                    setattr(m, f.name, conv(v))
+            route = "bp->ref"
         d = m.to_dict()
         text = m.to_json()
         tally.inc("edges")
@@ -79,6 +95,8 @@ def oracle(u: Universe, tc: TypeCase, aval: Dict[str, Any], route: str, tally: T
 
 
 def routes_fn(tc, aval):
+    if tc.tag == "T1" and tc.msg.fields[0].base == "enum" and aval:
+        return ROUTES + ("ref->bp:proto-names", "ref->bp:enum-numbers", "ref->bp:with-defaults", "bp->ref:foreign-enum")
     if tc.tag in ("T1", "TN", "KS", "REC"):
         return ROUTES + ("ref->bp:proto-names", "ref->bp:enum-numbers", "ref->bp:with-defaults")
     return ROUTES
